@@ -142,7 +142,8 @@ def in_labels(v, labels):
     return any((v == l) for l in labels)
 
 
-def c05(obj, kind, case, cfg, rec, rng):
+def c05(obj, kind, case, cfg, rec, rng, ref_obj=None):
+    ref_obj = ref_obj or obj          # the object whose configuration defines what must be accepted (the original, for a reloaded object)
     X = case['X']; base_row = {c: (X[c].dropna().iloc[0] if X[c].notna().any() else np.nan) for c in X.columns}
     def probe_frame(col, values, dtype):
         d = {c: [base_row[c]] * len(values) for c in X.columns}
@@ -179,10 +180,22 @@ def c05(obj, kind, case, cfg, rec, rng):
                 judge('.missing_where_none_seen', probe_frame(raw, [np.nan, lo], float), f, expect_reject=True)
         else:
             unseen = 'never_seen_%d' % rng.randint(0, 9)
-            has_default = obj.str_default is not None and obj.str_default in order.values()
+            has_default = ref_obj.str_default is not None and ref_obj.str_default in ref_obj.values_orders[f].values()
             judge('.unseen_category', probe_frame(raw, [unseen, base_row[raw]], object), f, expect_reject=(not has_default))
             if not order.contains(obj.str_nan):
                 judge('.missing_where_none_seen', probe_frame(raw, [np.nan, base_row[raw]], object), f, expect_reject=True)
+    # the same finite numbers in an object-dtype column and in a nullable Float64 column
+    qcols = [c for c in X.columns if any(ob.raw_feature_of(obj, f) == c for f in obj.features if f in obj.quantitative_features)]
+    if qcols:
+        Xo = X.copy()
+        for c in qcols: Xo[c] = Xo[c].astype(object)
+        a = outcome(lambda: obj.transform(Xo)); ref = outcome(lambda: obj.transform(X))
+        rec('C05:transform#post.object_dtype_numbers_handled_like_floats', a[0] == ref[0] and (a[0] != 'ok' or frame_equal(a[1], ref[1])), 'object-dtype quantitative columns: %s (float columns: %s)' % (a[0], ref[0]))
+        if not any(X[c].isna().any() for c in qcols):
+            Xn = X.copy()
+            for c in qcols: Xn[c] = Xn[c].astype('Float64')
+            a = outcome(lambda: obj.transform(Xn))
+            rec('C05:transform#raises.only_AssertionError', not a[0].startswith('error'), 'nullable Float64 quantitative columns: %s' % a[0], dict(frame='Float64'))
     # a value unseen for feature A but known to feature B, in the same frame: B's rows must be labelled as usual (row-wise purity, C05 / C07 / C10)
     quali = [f for f in obj.features if f in obj.qualitative_features and kind != 'MulticlassCarver']
     for A in quali:
@@ -477,6 +490,9 @@ def one(arg):
                 if 'C06' in props: c06(eo, kind, case, cfg, rec_e, rng)
         except Exception as e:
             recs.append(('X:battery_crash', False, lit, 'edited-object clauses crashed: %s' % traceback.format_exc()[-600:]))
+    if 'C05' in props:
+        try: c05(reload(obj, kind), kind, case, cfg, lambda c, ok, m, e=None: rec(c + '.reloaded_from_json', ok, m, e), rng, ref_obj=obj)
+        except Exception: recs.append(('X:battery_crash', False, lit, 'C05 on the reloaded object crashed: ' + traceback.format_exc()[-500:]))
     if 'C04' in props:
         # reloaded object and re-indexed frame obey the same mapping
         try:
